@@ -202,6 +202,15 @@ class C09(BaseCheck):
                 out.append((text[:a] + text[b:], 'del-' + k, why + ' at %d' % a))
         if 'header' in by:
             a, b = by['header'][0]
+            if b > 0 and text[b - 1] == '\n':
+                # the header must end with a line feed: other characters that some string methods treat as line
+                # boundaries (VT, FF, FS, GS, RS, NEL, LS, PS) do not terminate it; with and without CRs elsewhere
+                ch = r.choice(['\x0b', '\x0c', '\x1c', '\x1d', '\x1e', u'\x85', u'\u2028', u'\u2029'])
+                broken = text[:b - 1] + ch + text[b:]
+                if r.random() < 0.6:
+                    broken = broken.replace('\n', '\r\n')
+                out.append((broken, 'header-nl-to-other-separator',
+                            'the line feed ending the header replaced by %r (not a ZINC line terminator)' % ch))
             out.append((text[b:], 'drop-header', 'header line dropped'))
             how = r.choice([('ver:', 'vir:'), ('ver:', 'ver;'), ('ver:', 'Ver:'), ('ver:"', 'ver:'), ('ver:', ''), ('ver:"', 'ver: "')])
             out.append((text.replace(how[0], how[1], 1), 'damage-ver', 'version tag damaged: %r -> %r' % how))
